@@ -9,7 +9,7 @@ import pyglove as pg
 from pyglove.core.utils import value_location as vl
 from pyvc.contracts import Contract, register, spec, direct
 from pyvc.spec import implies, iff, ite, forall_range, exists_range
-from pyvc.values import SBool, SInt, SObj, SAny, SSeq
+from pyvc.values import SBool, SInt, SObj, SAny, SSeq, SChoice
 from pyvc import interp as I
 
 VL = 'pyglove.core.utils.value_location'
@@ -260,3 +260,67 @@ class KeyPathInit(_KP):
 
   def ensures_arguments_unchanged(self, key_or_key_list, parent, old):
     return key_or_key_list == old['keys'] and (parent is None or parent._keys == old['pk'])
+
+
+# ---------------------------------------------------------------------------
+# existence and defaulted lookup are consistent with `query`: a path exists
+# exactly when `query` returns (whatever it returns -- the node may hold any
+# value, the missing-value marker included); `get` returns what `query` returns
+# or else the default.
+
+@register
+class Exists(_KP):
+  target = f'{VL}:KeyPath.exists'
+  inline = INLINE + (f'{VL}:KeyPath.get',)
+
+  def inputs(self, b):
+    return dict(self=self.path(b, 'self'), src=b.any('src')), {}
+
+  def setup_policy(self, policy):
+    _policy(policy)
+    me = self
+
+    def query(interp, frame, args, kwargs):
+      found = interp.path.decide(2, 'query-raises-KeyError') == 0
+      interp.path.event('query', 'found' if found else 'KeyError', None)
+      if not found:
+        from pyvc.values import ExcVal
+        raise I.PyRaise(ExcVal(KeyError, ('no such path',)))
+      # the node found may be any value (also None / MISSING_VALUE)
+      me._found = interp.resolve(SChoice('found_kind', [SAny('node'), None, pg.MISSING_VALUE]))
+      return me._found
+    policy.contracts[f'{VL}:KeyPath.query'] = query
+
+  def trace_exists_iff_query_returns(self, events, outcome, interp, env):
+    if outcome[0] != 'return':
+      return False
+    q = [e for e in events if e.kind == 'query']
+    if len(q) != 1:
+      return False
+    res = interp.resolve(outcome[1])
+    want = q[0].what == 'found'
+    if isinstance(res, bool):
+      return res == want
+    z = interp.truth_z(res)
+    return z if want else z3.Not(z)
+
+  def replay(self, obligation, m):
+    class _A(pg.Object):
+      x: pg.typing.Any()
+      y: pg.typing.Any() = None
+    bad = []
+    for src, path in ((_A.partial(), 'x'), ({'a': pg.MISSING_VALUE}, 'a'), ([None], '[0]'), ({'a': {'b': 1}}, 'a.b'),
+                      ({'a': 1}, 'b'), ([1], '[3]')):
+      p = pg.KeyPath.parse(path)
+      try:
+        p.query(src)
+        found = True
+      except KeyError:
+        found = False
+      if p.exists(src) != found:
+        bad.append(f'KeyPath.parse({path!r}).exists({src!r}) = {p.exists(src)} although query {"returns" if found else "raises KeyError"}')
+    return dict(outcome='reproduced' if bad else 'not-reproduced', detail='; '.join(bad[:3]) or 'exists agrees with query')
+
+  def small_models(self):
+    from pyvc.contracts import Model
+    yield Model({}, {})
